@@ -583,7 +583,11 @@ class CallMixin:
             cs2.pc = st.pc
             cs2.vars = dict(bound)
             for text in c.ensures:
-                st.assume(zbool(self.eval_spec(text, cs2, env={'result': result, '__exc__': None}, old_state=pre)))
+                e = self.eval_spec(text, cs2, env={'result': result, '__exc__': None}, old_state=pre)
+                if e is False:
+                    raise CannotBind('postcondition %r of callee %s is literally false at the call in %s '
+                                     '(ill-typed contract, e.g. missing `returns`)' % (text, c.name, self.fname))
+                st.assume(zbool(e))
             # heap objects created by fresh_result live in st.heap already
             return result
         finally:
